@@ -283,6 +283,7 @@ def gen_cases(tier, seed):
             for i in range(n):
                 cases.append({'type': 'manager', 'checksum_mode': cm, 'fail_part': fail, 'cells': [list(c) for c in sub[i::n]]})
     cases.append({'type': 'reject'})
+    cases.append({'type': 'reject_other'})
     cases.append({'type': 'legacy'})
     cases.append({'type': 'procpool'})
     cases += [dict(c, debug_log=True) for c in cases if c['type'] != 'reject' and c.get('checksum_mode', 'when_supported') == 'when_supported']
@@ -380,6 +381,49 @@ def run_reject(case):
     return viol, stats, keys
 
 
+def run_reject_other(case):
+    """The other front-ends (legacy S3Transfer.upload_file / download_file, ProcessPoolDownloader.download_file): a name outside the
+    method's allow-list is rejected with ValueError before ANY request - also the size-discovery one - is made."""
+    import s3transfer
+    from s3transfer.constants import ALLOWED_DOWNLOAD_ARGS
+    from .. import frontends
+    from .c14 import run_api_frontend
+
+    viol = []
+    stats = {'reject_cells': 0}
+    keys = set()
+    allp = set()
+    for op in OPS10:
+        allp |= set(service_model()[op])
+    allp -= {'Bucket', 'Key', 'Body', 'UploadId', 'PartNumber', 'MultipartUpload', 'CopySource', 'Range', 'CopySourceRange'}
+    allp |= {'Junk', 'acl', 'Versionid'}
+    for fe, method, allowed in (('legacy', 'download', s3transfer.S3Transfer.ALLOWED_DOWNLOAD_ARGS), ('legacy', 'upload', s3transfer.S3Transfer.ALLOWED_UPLOAD_ARGS),
+                                ('procpool_full', 'download', ALLOWED_DOWNLOAD_ARGS)):
+        for a in sorted(allp):
+            if a in allowed:
+                continue
+            for size in (5, 20):
+                shp = find_shape(a)
+                spec = {'front_end': fe, 'seed': 1, 'config': dict(multipart_threshold=16, multipart_chunksize=8, **({'max_concurrency': 2} if fe == 'legacy' else {'workers': 2})), 'exit': 'shutdown',
+                        'transfers': [{'kind': method, 'dst': 'path', 'size': size, 'extra_args': {a: value_for(a, shp) if shp is not None else 'x'}}]}
+                obs = run_api_frontend(spec, size) if method == 'download' else frontends.run_legacy(spec)
+                try:
+                    x = obs.xfers[0]
+                    calls = [c['op'] for c in sorted(obs.world.s3.calls.values(), key=lambda c: c['call_id'])]
+                    stats['reject_cells'] += 1
+                    keys.add(('reject', fe, method, a, size))
+                    exc = x.submit_exc or (x.exc if x.outcome == 'raised' else None)
+                    if not isinstance(exc, ValueError):
+                        viol.append(V(f'{fe}.{method}: extra_args name {a!r} is outside the allow-list but was not rejected with ValueError ({exc!r})',
+                                      sym='not-rejected', front_end=fe, method=method, arg=a))
+                    if calls:
+                        viol.append(V(f'{fe}.{method}: {calls} issued although {a!r} is not an allowed extra argument (rejection has to come before any '
+                                      f'request)', sym='request-before-reject', front_end=fe, method=method, arg=a))
+                finally:
+                    scenario.cleanup(obs)
+    return viol, stats, keys
+
+
 def run_legacy(case):
     import s3transfer
     from .. import frontends
@@ -468,6 +512,8 @@ def _run_case(case):
         viol, stats, keys = run_manager_cells(case)
     elif t == 'reject':
         viol, stats, keys = run_reject(case)
+    elif t == 'reject_other':
+        viol, stats, keys = run_reject_other(case)
     elif t == 'legacy':
         viol, stats, keys = run_legacy(case)
     else:
